@@ -4,6 +4,8 @@ Every FALSE claim must be refuted and every TRUE claim discharged; exit 1 otherw
   branch_write     a heap first written on one branch of an `if` (found in round 3: the join used to take that
                    branch's heap for both paths, so `return p->x` "was" 1 on the path that never wrote it)
   read_after_call  a heap first read after a havocking call is arbitrary, not the entry heap
+  private_local    a callee that may write everything does not reach a local whose address it was not handed
+                   (A-STACK), but does reach one whose address it got
   last             a cycle made of a backward goto needs a label invariant; without re-establishing it the
                    obligation fails
 usage: python3-vt -m selftest.engine_cases
@@ -57,6 +59,37 @@ def main():
             return [('FALSE: the value of y at entry', c.result == fx(c, c.old, c['p'], 'y')),
                     ('TRUE: the value of y at exit', c.result == fx(c, c.new, c['p'], 'y'))]
 
+    class fill(Contract):
+        name = 'fill'
+        trusted = True
+
+        def frame(self, c):
+            return Frame(raw=[(c['p'], 8)])
+
+    class private_local(Contract):
+        name = 'private_local'
+
+        def pre(self, c):
+            return [('v', c.valid(c['p'], 24))]
+
+        def frame(self, c):
+            return None
+
+        def post(self, c):
+            return [('TRUE: keep is still 5 after the call', c.result == 5)]
+
+    class handed_local(Contract):
+        name = 'handed_local'
+
+        def pre(self, c):
+            return [('v', c.valid(c['p'], 24))]
+
+        def frame(self, c):
+            return None
+
+        def post(self, c):
+            return [('FALSE: out is still 6', c.result == 6)]
+
     reach = z3.Function('reach', z3.BitVecSort(64), z3.BoolSort())
 
     class last(Contract):
@@ -76,9 +109,9 @@ def main():
                     ('FALSE: the argument itself', c.result == c['p'])]
 
     bad = 0
-    for K in (unknown, branch_write, read_after_call, last):
+    for K in (unknown, fill, branch_write, read_after_call, last, private_local, handed_local):
         R.add(K)
-    for K in (branch_write, read_after_call, last):
+    for K in (branch_write, read_after_call, last, private_local, handed_local):
         ex = Exec(tu, R, K.name, R.contracts[K.name])
         obs = [o for o in ex.run() if o.kind == 'ensures']
         for ob, verdict, info in smt.discharge(obs, timeout_s=30):
